@@ -183,7 +183,7 @@ def finish(ctx, seed=0, verbose=True):
         "seed": int(seed),
         "level": "other",
         "coverage": {
-            "explanation": "Static analysis of %s's source (ast / regex-automata / table rules; ural is never imported or executed). Rules: %s"
+            "explanation": "Static analysis of %s's source (ast / regex-automata / table rules; ural is never imported or run by CPython; model-table rules interpret a function's syntax tree on a stated finite set of representatives with the analyser's own evaluator). Rules: %s"
             % (ctx.repo.root, "; ".join("%s = %s" % kv for kv in sorted(ctx.rules_doc.items()))),
             "evaluations": ctx.obligations,
             "distinct_nontrivial": len(ctx.nontrivial),
@@ -199,11 +199,13 @@ def finish(ctx, seed=0, verbose=True):
             "samples": ctx.samples[:40],
             "modules_consulted": sorted(ctx.repo.consulted),
             "source_digest": ctx.repo.digest(),
+            "decided_on_interpreted_representatives_after_shape_mismatch": getattr(ctx, "by_table", 0),
             "exhaustive": False,
         },
         "assumptions": [
             "CPython's ast and re._parser parse the source / patterns as the interpreter does",
             "the automata construction in uralverif/relang.py is sound (cross-checked against re in selftest)",
+            "the finite-domain evaluator uralverif/microeval.py gives Python's semantics to the constructs it accepts and refuses the others (cross-checked on the 563 reviewed rows of spec/e2e_rows.json in selftest)",
             "standard-library callees (urlsplit, urlunsplit, urljoin, quote, html.unescape) behave as documented",
             "only the stated necessary conditions are decided, not the end-to-end behaviour (see DESIGN.md section 4)",
         ]
